@@ -368,6 +368,56 @@ def check_lazy(c, method, args, kw, expected, rng, rec, impl, nleaves,
                     far, type(e).__name__), observed=None,
                     expected='IndexError')
         rec.ev(impl + ':far_index_then_len')
+    r_ = rng.random()
+    if r_ < .25:
+        # the same sequence object is iterated part of the way first (a
+        # loop left early), then indexed: iteration must not move what
+        # indexing relies on
+        k = rng.randint(0, n)
+        it = iter(seq)
+        got = []
+        for _ in range(k):
+            try:
+                got.append(next(it))
+            except StopIteration:
+                break
+        rec.evaluations += 1
+        rec.ev(impl + ':partial_iteration_then_index')
+        if not eq(got, expected[:k]):
+            return dict(what='first %d of iter(seq)' % k, observed=got,
+                        expected=expected[:k])
+        if rng.random() < .5:
+            del it
+    elif r_ < .35 and n:
+        # a membership test that hits half-way
+        x = expected[rng.randrange(n)]
+        rec.evaluations += 1
+        rec.ev(impl + ':membership_then_index')
+        try:
+            if not (x in seq):
+                return dict(what='%r in seq' % (x,), observed=False,
+                            expected=True)
+        except Exception as e:
+            return dict(what='x in seq raised %s' % type(e).__name__,
+                        observed=None, expected=True)
+    elif r_ < .45:
+        # two iterations over ONE sequence object at the same time
+        rec.evaluations += 1
+        rec.ev(impl + ':paired_iteration')
+        try:
+            got = [(a, b) for a, b in zip(seq, seq)]
+        except Exception as e:
+            return dict(what='zip(seq, seq) raised %s' % type(e).__name__,
+                        observed=None, expected=n)
+        if not eq(got, [(a, a) for a in expected]):
+            return dict(what='zip(seq, seq)', observed=got[:6],
+                        expected=[(a, a) for a in expected][:6])
+        it1 = iter(seq)
+        first = [x for _, x in zip(range(n // 2), it1)]
+        got = first + [x for x in seq][:0] + list(it1)
+        if not eq(got, expected):
+            return dict(what='iterator resumed after a full second iteration',
+                        observed=got[:8], expected=expected[:8])
     try:
         ln = len(seq)
     except Exception as e:
